@@ -43,7 +43,7 @@ def run(chk: Check):
            what="all DAGs on 3 nodes x input states x positions x private residues x auto settings")
     traces = [I.symbolic_trace(rng, ncalls=rng.randint(4, 12)) for _ in range(200 if chk.quick else 3000)]
     traces += [I.plain_trace(rng) for _ in range(2 if chk.quick else 20)]
-    fams = (["linreg_flag", "transformed"] if chk.quick else FAMILY) + ["name_collision", "uniform_default", "int_init"]
+    fams = (["linreg_flag", "transformed", "legacy_pit"] if chk.quick else FAMILY) + ["name_collision", "uniform_default", "int_init"]
     for f in fams:
         traces.append(I.numeric_trace(rng, f))
 
